@@ -303,6 +303,20 @@ func (e *Env) lookup(name string) (SymVal, bool) {
 	if v, ok := e.c.lookupVarY(e.st, name, e.at, e.atEnd, e.hdr, e.upTo); ok {
 		return v, true
 	}
+	// a variable captured by the closure under analysis (its value when the closure was made)
+	if e.calleePkg == "" || e.c.fn.Pkg == nil || e.calleePkg == e.c.fn.Pkg.Pkg.Path() {
+		for _, fv := range e.c.fn.FreeVars {
+			if fv.Name() == name {
+				if v, ok := e.c.vals[fv]; ok {
+					if e.c.capturedByRef(fv) {
+						locs := e.c.leafLocs(v.S, fv.Type().Underlying().(*types.Pointer).Elem())
+						return e.c.loadLocs(e.st, locs, fv.Type().Underlying().(*types.Pointer).Elem()), true
+					}
+					return v, true
+				}
+			}
+		}
+	}
 	return SymVal{}, false
 }
 
@@ -1531,6 +1545,37 @@ func (e *Env) call(ex *ast.CallExpr) (SymVal, error) {
 			fmt.Fprintf(&c.sb, "(declare-fun %s ((Array Ref %s)) Int)\n", fn, srt)
 		}
 		return mkMath(app(fn, c.comp(e.st, locs[0].comp, srt))), nil
+	case "captured":
+		// captured(x): the current content of a variable the closure under analysis captured by
+		// reference (what a nested closure or a deferred call will read)
+		id, ok := ex.Args[0].(*ast.Ident)
+		if !ok || len(ex.Args) != 1 {
+			return SymVal{}, fmt.Errorf("captured(name)")
+		}
+		for _, fv := range c.fn.FreeVars {
+			if fv.Name() == id.Name {
+				v, ok := c.vals[fv]
+				if !ok {
+					break
+				}
+				if c.capturedByRef(fv) {
+					et := fv.Type().Underlying().(*types.Pointer).Elem()
+					return c.loadLocs(e.st, c.leafLocs(v.S, et), et), nil
+				}
+				return v, nil
+			}
+		}
+		return SymVal{}, fmt.Errorf("captured: %s is not a captured variable", id.Name)
+	case "param":
+		// param(x): the value the parameter x had on entry, even where an inner declaration shadows it
+		id, ok := ex.Args[0].(*ast.Ident)
+		if !ok || len(ex.Args) != 1 {
+			return SymVal{}, fmt.Errorf("param(name)")
+		}
+		if v, ok := c.paramVals[id.Name]; ok {
+			return v, nil
+		}
+		return SymVal{}, fmt.Errorf("param: no parameter %s", id.Name)
 	case "sameslice":
 		// sameslice(a, b): the two slice headers are identical (store, offset, length, capacity)
 		a, err := arg(0)
@@ -1875,4 +1920,35 @@ func selectPatterns(body, bn string) []string {
 		}
 	}
 	return out
+}
+
+// capturedByRef: the free variable holds the address of the captured variable (go/ssa captures
+// by reference variables that are shared with an enclosing closure); recognised by an enclosing
+// function having a parameter, receiver or free variable of that name whose type is the pointee.
+func (c *fnCtx) capturedByRef(fv *ssa.FreeVar) bool {
+	pt, ok := fv.Type().Underlying().(*types.Pointer)
+	if !ok {
+		return false
+	}
+	for p := c.fn.Parent(); p != nil; p = p.Parent() {
+		for _, q := range p.Params {
+			if q.Name() == fv.Name() && types.Identical(q.Type(), pt.Elem()) {
+				return true
+			}
+		}
+		for _, q := range p.FreeVars {
+			if q.Name() == fv.Name() && types.Identical(q.Type(), pt.Elem()) {
+				return true
+			}
+		}
+		// a local of the enclosing function that lives in a heap cell
+		for _, b := range p.Blocks {
+			for _, in := range b.Instrs {
+				if al, ok := in.(*ssa.Alloc); ok && al.Comment == fv.Name() && types.Identical(al.Type(), fv.Type()) {
+					return true
+				}
+			}
+		}
+	}
+	return false
 }
